@@ -48,6 +48,20 @@ def eval_encode(rel, bp, ctype, date, respin):
     return out
 
 
+def eval_rhel5(version, bp_version, variants, ctype, date, respin):
+    """release RHEL 5.x based on RHEL 5: the id also names the first variant if it is Client or Server"""
+    import productmd.composeinfo as pc
+    from mc.build import ci as CI
+    spec = CI.seed_flat()
+    spec["release"].update({"name": "Red Hat Enterprise Linux", "short": "RHEL", "version": version, "is_layered": True})
+    spec["base_product"] = {"name": "Red Hat Enterprise Linux", "short": "RHEL", "version": bp_version, "type": "ga"}
+    spec["compose"].update({"type": ctype, "date": date, "respin": respin})
+    spec["variants"] = [CI.vspec(v) for v in variants]
+    ci = CI.build(spec)
+    cid = ci.compose.id
+    return {"id": cid, "validate": _call(ci.compose.validate), "decoded": _call(pc.get_date_type_respin, cid)}
+
+
 def eval_decode(cid):
     import productmd.composeinfo as pc
     return {"decoded": _call(pc.get_date_type_respin, cid)}
@@ -102,6 +116,7 @@ def units(tier, seed):
     for a in "abcdefghijklmnopqrstuvwxyz":
         us.append(("dec3", a))
     us.append(("legacy", seed))
+    us.append(("rhel5",))
     return us
 
 
@@ -166,6 +181,19 @@ def run_unit(unit, acc):
                     acc.violation("decoder-table", {"kind": "dec", "id": cid}, o,
                                   "get_date_type_respin(%r) = %s, documented: %s" % (cid, o["decoded"], want))
         acc.sample({"decode": "Foo-1.0-20170217.%s.2" % (sufs[-1])}, limit=1)
+    elif kind == "rhel5":
+        for version, bpv, variants in itertools.product(("5.11", "5", "6.1"), ("5", "5.2", "6"), (["Server"], ["Client", "Server"], ["Workstation"], [])):
+            for ctype, date, respin in itertools.product(ids.COMPOSE_TYPES_DOC, DATES[:2], (0, 3, 10 ** 7)):
+                o = eval_rhel5(version, bpv, variants, ctype, date, respin)
+                acc.ev()
+                case = {"kind": "rhel5", "version": version, "bp_version": bpv, "variants": variants, "ctype": ctype, "date": date, "respin": respin}
+                ok = (o["id"].startswith("RHEL-%s-" % version) and o["validate"][0] == "ok" and o["decoded"] == ["ok", [date, ctype, respin]])
+                if not ok:
+                    acc.violation("rhel5", case, o, "RHEL %s on RHEL %s with variants %s: id %r, validation %s, decoded %s (created from %s)"
+                                  % (version, bpv, variants, o["id"], o["validate"], o["decoded"], (date, ctype, respin)))
+                else:
+                    acc.outcome("encode:ok")
+                acc.nontriv(("rhel5", version, bpv, tuple(variants), ctype, date, respin))
     else:
         for version in ("0.0", "0.2"):
             for ctype, date, respin, with_fields in itertools.product(ids.COMPOSE_TYPES_DOC, DATES, RESPINS, (False, True)):
@@ -191,6 +219,8 @@ def replay(case):
         return eval_encode(case["rel"], case["bp"], case["ctype"], case["date"], case["respin"])
     if case["kind"] == "dec":
         return eval_decode(case["id"])
+    if case["kind"] == "rhel5":
+        return eval_rhel5(case["version"], case["bp_version"], case["variants"], case["ctype"], case["date"], case["respin"])
     return eval_legacy(case["doc"])
 
 
@@ -216,5 +246,6 @@ def describe(tier):
                 "exists only in the id.  Non-trivial: respin >= 10, non-production type, or a version with a long digit run.",
         "bound": "respin < 10^8; suffix length <= 3; grid as listed",
         "exhaustive": True,
-        "assumptions": ["the RHEL-5 compose-id hack (short 'RHEL', major version 5) is outside the alphabet"],
+        "assumptions": ["the RHEL-5 branch of create_compose_id (short RHEL, major version 5 on RHEL 5; the first variant is named in the id) is "
+                        "explored on its own grid of 3 x 3 versions x 4 variant sets x the compose grid"],
     }
